@@ -341,7 +341,7 @@ def run(rep, facts):
                 a = ir.peel(a)
                 if a[0] == 'call' and a[1] == E.REQ_NEW:
                     kinds.add('new')
-                elif any(x[0] == 'variant' and x[2] == 'Some' for x in ir.walk(a)) and any(
+                elif any(x[0] == 'variant' for x in ir.walk(a)) and any(
                         x[0] == 'call' and 'Instrumented' in x[1] for x in ir.walk(a)):
                     kinds.add('close-ok')
                 else:
